@@ -36,8 +36,22 @@ type scase struct {
 		I int `json:"i"`
 		O int `json:"o"`
 		S int `json:"s"`
+		B int `json:"b"`
 	} `json:"cfg"`
 	Sched []op `json:"sched"`
+}
+
+// base: where on the calendar a mock clock starts; each is a multiple of every interval used
+func base(b int, bubble time.Time, res *vh.Result) time.Time {
+	switch b {
+	case 1:
+		res.Hit("start-at-unix-epoch")
+		return time.Unix(0, 0)
+	case 2:
+		res.Hit("start-before-1970")
+		return time.Unix(-86400, 0)
+	}
+	return bubble
 }
 
 func units(t time.Time, epoch time.Time) int { return int(t.Sub(epoch) / unit) }
@@ -52,7 +66,7 @@ func runTicker(t *testing.T, tw *trace.Writer, c *scase, idx int, res *vh.Result
 		}
 	}()
 	synctest.Test(t, func(t *testing.T) {
-		epoch := time.Now() // bubble start: 2000-01-01T00:00:00Z, a multiple of every interval used
+		epoch := base(c.Cfg.B, time.Now(), res) // bubble start: 2000-01-01T00:00:00Z, a multiple of every interval used
 		mock := clock.NewMock(epoch.Add(time.Duration(c.Cfg.S) * unit))
 		ctx, cancel := context.WithCancel(clock.Context(context.Background(), mock))
 		at := verifhooks.NewAlignedTickerWithContext(ctx, time.Duration(c.Cfg.I)*unit, time.Duration(c.Cfg.O)*unit)
@@ -78,6 +92,9 @@ func runTicker(t *testing.T, tw *trace.Writer, c *scase, idx int, res *vh.Result
 				tw.Emit(map[string]any{"ev": "clock", "t": units(mock.Now(), epoch)})
 				if o.D > c.Cfg.I {
 					res.Hit("jump-over-interval")
+				}
+				if o.D > 600 {
+					res.Hit("stall-longer-than-a-minute")
 				}
 			case "hold":
 				held = true
@@ -203,7 +220,7 @@ func runFlusherSmooth(t *testing.T, tw *trace.Writer, c *scase, idx int, res *vh
 // (3) the flusher on the jumping mock clock: only the elapsed time passed to the aggregators is meaningful
 func runFlusherMock(t *testing.T, tw *trace.Writer, c *scase, idx int, res *vh.Result) {
 	synctest.Test(t, func(t *testing.T) {
-		epoch := time.Now()
+		epoch := base(c.Cfg.B, time.Now(), res)
 		mock := clock.NewMock(epoch.Add(time.Duration(c.Cfg.S) * unit))
 		ctx, cancel := context.WithCancel(clock.Context(context.Background(), mock))
 		p := &proc{}
